@@ -35,7 +35,11 @@ def arrays_for(case, dtype=np.float64):
         elif p == "var":
             out.append(np.asarray(values.positive(s, salt=7 * i), dtype=dtype))
         else:
-            out.append(np.asarray(values.make(p, s, salt=7 * i), dtype=dtype))
+            a = values.make(p, s, salt=7 * i)
+            m = case.get("vmod")
+            if m and p == "generic":
+                a = {"tiny": a * 1e-4, "large": a * 1e3, "offset": a + 1e5}[m]
+            out.append(np.asarray(a, dtype=dtype))
     return out
 
 # ----------------------------------------------------------------------------- library side
